@@ -18,7 +18,7 @@ def pattern_sx(pat):
     return [[a, l] for a, l in pat]
 
 
-def mk_block_class(bd, idx, binary=False):
+def mk_block_class(bd, idx, binary=False, base=None):
     from cfinterface.components.block import Block
     _counter[0] += 1
 
@@ -63,7 +63,17 @@ def mk_block_class(bd, idx, binary=False):
 
     ns = {"BEGIN_PATTERN": regex_of(bd["begin"], binary), "END_PATTERN": regex_of(bd["end"], binary), "read": read, "write": write,
           "__eq__": __eq__, "__hash__": None, "__slots__": [], "_verif_idx": idx}
-    return type("VBlock%d_%d" % (idx, _counter[0]), (Block,), ns)
+    return type("VBlock%d_%d" % (idx, _counter[0]), (base or Block,), ns)
+
+
+def mk_block_classes(bds, binary=False):
+    """the classes of a block list; a definition with "parent": j (j earlier) becomes a SUBCLASS of class j that overrides
+    the patterns (class-level state of the framework is reachable through inheritance)"""
+    out = []
+    for i, bd in enumerate(bds):
+        par = bd.get("parent")
+        out.append(mk_block_class(bd, i, binary, base=out[par] if par is not None and par < i else None))
+    return out
 
 
 def mk_blockfile_class(blocks, binary=False, encoding=None):
